@@ -48,6 +48,7 @@ psRes_t psVerifySig(psPool_t *pool,
 {
 # ifdef USE_RSA
     unsigned char out[SHA512_HASH_SIZE] = { 0 };
+    unsigned char *sigCopy = NULL;
 # endif
 # ifdef USE_ECC
     int32 eccRet;
@@ -97,13 +98,23 @@ psRes_t psVerifySig(psPool_t *pool,
         else
 #  endif /* USE_PKCS1_PSS */
         {
+            /* The RSA public key operation below works in place: give it
+               a copy, the caller's signature (often the one kept in a
+               parsed certificate) must still verify next time. */
+            sigCopy = psMalloc(pool, sigLen);
+            if (sigCopy == NULL)
+            {
+                rc = PS_MEM_FAIL;
+                goto out;
+            }
+            Memcpy(sigCopy, sig, sigLen);
 
             if (opts && opts->msgIsDigestInfo)
             {
                 /* RSA PKCS 1.5 verification of TLS signed elements. */
                 rc = pubRsaDecryptSignedElementExt(pool,
                         &key->key.rsa,
-                        (unsigned char *) sig,
+                        sigCopy,
                         sigLen,
                         out,
                         msgInLen,
@@ -122,7 +133,7 @@ psRes_t psVerifySig(psPool_t *pool,
                 /* Standard RSA PKCS #1.5 verification. */
                 rc = psRsaDecryptPub(pool,
                         &key->key.rsa,
-                        (unsigned char *) sig,
+                        sigCopy,
                         sigLen,
                         out,
                         msgInLen,
@@ -202,6 +213,9 @@ psRes_t psVerifySig(psPool_t *pool,
     *verifyResult = PS_TRUE;
 
 out:
+# ifdef USE_RSA
+    psFree(sigCopy, pool);
+# endif
     return rc;
 }
 
